@@ -19,7 +19,7 @@ META = {
             "returned address, zone_in_use, the whole segment table and the red-black tree of free-run sizes after every "
             "operation; TLC validates each step (inside the zone, unit aligned, no overlap, best fit, NULL iff no run is "
             "large enough, in-use = sum of live blocks, free neighbours merged, tree valid and consistent).",
-    "note": "Exhaustive for all sequences of <= 6 operations (8 units) and <= 5 operations (16 units) in quick, 8 / 6 in "
+    "note": "Exhaustive for all sequences of <= 6 operations (8 units) and <= 5 operations (16 units) in quick, 7 / 6 in "
             "thorough, with request sizes that exercise rounding up to the unit; random walks of 60-150 operations on "
             "larger zones beyond that. Single caller (the allocator serialises callers with one lock). The harness reads "
             "the private chunk-list node layout (checked against the tree's key offset). Trusted: TLC, the harness' bounded walks.",
@@ -45,8 +45,8 @@ def run(ctx):
         bfs = [(8, {1, 5, 9}, 6), (16, {4, 8, 20}, 5)]
         sims = [(48, set(range(0, 41, 3)), 60, 300)]
     else:
-        bfs = [(8, {1, 5, 9}, 8), (16, {4, 8, 20}, 6)]
-        sims = [(48, set(range(0, 41, 3)), 80, 3000), (64, set(range(0, 61, 5)) | {1, 2}, 150, 1500)]
+        bfs = [(8, {1, 5, 9}, 7), (16, {4, 8, 20}, 6)]
+        sims = [(48, set(range(0, 41, 3)), 80, 1000), (64, set(range(0, 61, 5)) | {1, 2}, 150, 500)]
     for n, by, ml in bfs:
         mod, cfg = mcgen.write_mc(d, "bfs%d" % n, "BestFit", {"N": n, "Unit": UNIT, "Bytes": by, "MaxLen": ml},
                                   invariants=("TypeOK", "Emit"))
